@@ -287,12 +287,22 @@ def splice_unit(u, scratch, probes, wdir):
                 a, _, b2 = spec["nth"].partition("/")
                 nth = (int(a), int(b2))
             body = vsplice.extract_statement(text, spec["from"], spec["start"], nth, int(spec.get("stmts", "1")), int(spec.get("skip", "0")))
-            extracted.append("/* extracted verbatim from %s(): statement starting at %r */\n%s %s(%s)\n{\n%s\n%s\n%s\n}\n"
+            extracted.append((spec["from"], "/* extracted verbatim from %s(): statement starting at %r */\n%s %s(%s)\n{\n%s\n%s\n%s\n}\n"
                              % (spec["from"], spec["start"].replace("/*", "").replace("*/", "").strip(), spec.get("returns_type", "void"), b.args[0], spec.get("params", "void"),
-                                spec.get("locals", ""), body, spec.get("return", "")))
+                                spec.get("locals", ""), body, spec.get("return", ""))))
             info.setdefault("extractions", []).append("%s <- %s(): %d bytes verbatim" % (b.args[0], spec["from"], len(body)))
     if extracted:
-        text = text + "\n/* ---- vsplice: extracted statement ranges ---- */\n" + "\n".join(extracted)
+        # each extracted function is placed directly behind the function it was taken
+        # from, so that it is compiled under the same macro definitions (the emitted
+        # scanners redefine yyless() behind yylex)
+        tmp = vsplice.CFile(text, origin)
+        ends = {}
+        for fn, _ in extracted:
+            if fn not in ends:
+                ends[fn] = tmp.toks[tmp.find_function(fn)[4]][2]
+        for fn in sorted(ends, key=lambda f: -ends[f]):
+            blk = "\n/* ---- vsplice: statement ranges extracted from %s() ---- */\n" % fn + "\n".join(t for f2, t in extracted if f2 == fn)
+            text = text[:ends[fn]] + blk + text[ends[fn]:]
     c = vsplice.CFile(text, origin)
     tagdefs = "".join("#define VP_TAG_%s 1\n" % re.sub(r"\W", "_", t) for t in sorted(tags))
     for d in u.get("defs", "").split(";;"):
